@@ -718,5 +718,128 @@ Section Term.
       intros cm _. destruct (negb (mr_end cm =? e1) && pmode_eqb (sq_mode d) Strict); [apply nf_ok|].
       destruct (negb gaps && (mr_end cm =? mr_end bm - 1)); [apply nf_panic|apply nf_ok].
     Qed.
+
+    (* -------------------------------------------------------------- AnyNumberOf *)
+    Definition AnyS (d : any_d) (terms : list N) : Prop :=
+      let T' := deeper g (an_reset d) (an_terms d) terms in
+      CallAll (an_elems d) T' /\ CallAll T' T'.
+
+    Lemma any_loop_nf k : forall d len idx mx terms nm cs mi wi matched,
+      idx <= mx -> mx <= len -> B idx mx matched -> mi = mr_end matched -> mi <= wi ->
+      mx - wi <= R0 -> mx - mi + 1 <= N.of_nat k ->
+      AnyS d terms -> Okl (an_elems d) (mx - wi) ->
+      NF (any_loop g toks rec k d len idx mx terms nm cs mi wi matched).
+    Proof.
+      induction k as [|k IH]; intros d len idx mx terms nm cs mi wi matched Hi Hmx Hm Hmi Hwi Hr Hk Hs Ho; [lia|].
+      cbn [any_loop].
+      destruct (((an_min d <=? nm) && (mx <=? mi)) || opt_le (an_max d) nm); [apply parse_mode_result_nf|].
+      destruct (mx <=? mi) eqn:Emi; [apply nf_ok|]. b2p.
+      pose proof Hs as (Hc & Ht).
+      apply nf_bind; [apply longest_match_nf; auto|]. intros [m mo] Hlm.
+      destruct (negb (has_match m)) eqn:Ehm; [apply parse_mode_result_nf|]. apply negb_false_iff in Ehm.
+      destruct mo as [o|]; [|apply nf_panic].
+      apply nf_bind; [apply ckey_of_nf|]. intros ck _.
+      destruct (bump ck cs) as [cs' cnt].
+      destruct (match cnt with Some c => opt_lt (an_max_per d) c | None => false end); [apply parse_mode_result_nf|].
+      pose proof (longest_match_adv g toks rec HrecB _ _ _ _ _ _ Hlm Ehm) as Hadv.
+      apply (longest_match_spec g toks rec HrecB) in Hlm. destruct Hlm as [->|[Hw Hbm]];
+        [unfold has_match in Ehm; cbn in Ehm; rewrite N.eqb_refl in Ehm; discriminate|].
+      assert (Hm' : B idx mx (append matched m)).
+      { apply B_append; [exact Hm|eapply B_weaken; [|exact Hbm]; destruct Hm; lia|destruct Hbm; lia]. }
+      pose proof (append_end_hm matched m Ehm) as Hend.
+      destruct Hm' as (A1 & A2 & A3). destruct Hbm as (M1 & M2 & M3).
+      apply nf_bind; [destruct (an_gaps d); [apply skip_fwd_nf|apply nf_ok]|]. intros w' Hw'.
+      assert (Hw2 : mr_end (append matched m) <= w')
+        by (destruct (an_gaps d); [apply skip_fwd_spec in Hw'; lia|inversion Hw'; subst; lia]).
+      apply IH; auto; try (unfold B; lia). apply okl_lt. lia.
+    Qed.
+
+    Lemma match_anynumberof_nf d len idx terms :
+      idx <= len -> len - idx <= R0 ->
+      (forall ex, an_exclude d = Some ex -> Callable ex terms /\ ok ex (len - idx)) ->
+      (an_mode d = Greedy ->
+       let ts := if an_reset d then an_terms d else an_terms d ++ terms in
+       TrimS ts terms /\ Okl (ts ++ brk g) (len - idx)) ->
+      AnyS d terms -> Okl (an_elems d) (len - idx) ->
+      NF (match_anynumberof g toks rec fl d len idx terms).
+    Proof.
+      intros Hi Hr Hex Hgr Hs Ho. unfold match_anynumberof.
+      apply nf_bind.
+      { destruct (an_exclude d) as [ex|]; [|apply nf_ok]. destruct (Hex ex eq_refl) as [H1 H2].
+        apply nf_bind; [apply rec_nf; assumption|intros; apply nf_ok]. }
+      intros excluded _. destruct excluded; [apply nf_ok|].
+      apply nf_bind; [apply init_counters_nf|]. intros cs _.
+      apply nf_bind.
+      { destruct (pmode_eqb (an_mode d) Greedy) eqn:Eg; [|apply nf_ok].
+        assert (Em : an_mode d = Greedy) by (destruct (an_mode d); try discriminate; reflexivity).
+        destruct (Hgr Em) as (G1 & G2). apply trim_to_terminator_nf; auto. lia. }
+      intros mx Hmxe.
+      assert (Hmx : idx <= mx /\ (mx <= len \/ pmode_eqb (an_mode d) Greedy = false)).
+      { destruct (pmode_eqb (an_mode d) Greedy);
+          [apply (trim_to_terminator_spec g toks rec HrecB) in Hmxe; lia|inversion Hmxe; subst; lia]. }
+      destruct (len <? mx) eqn:El; [apply nf_panic|]. b2p. cbn [bind].
+      apply any_loop_nf; [lia|lia|apply B_empty; lia|reflexivity|lia|lia|lia|exact Hs|].
+      eapply okl_mono; [|exact Ho]. lia.
+    Qed.
+
+    (* -------------------------------------------------------------- Delimited *)
+    Definition DelimS (d : any_d) (delim : N) (tms terms : list N) : Prop :=
+      CallAll tms terms /\ CallAll terms terms
+      /\ (let T0 := deeper g false [] terms in CallAll [delim] T0 /\ CallAll T0 T0)
+      /\ (let T1 := deeper g false [delim] terms in CallAll (an_elems d) T1 /\ CallAll T1 T1).
+
+    Lemma delim_loop_nf k : forall d delim tr mn len idx terms tms dl sk w wm dm,
+      idx <= w -> w <= len -> len - idx <= R0 -> len - w + 1 <= N.of_nat k ->
+      DelimS d delim tms terms ->
+      (idx < w \/ (sk = false /\ Okl (tms ++ an_elems d) (len - idx))) ->
+      NF (delim_loop g toks rec k d delim tr mn len idx terms tms dl sk w wm dm).
+    Proof.
+      induction k as [|k IH]; intros d delim tr mn len idx terms tms dl sk w wm dm Hw Hl Hr Hk Hs Hj; [lia|].
+      cbn [delim_loop].
+      apply nf_bind; [destruct (an_gaps d && (idx <? w)); [apply skip_fwd_nf|apply nf_ok]|].
+      intros w' Hw'.
+      assert (Hw2 : w <= w' /\ w' <= len /\ (idx < w' -> idx < w)).
+      { destruct (an_gaps d && (idx <? w)) eqn:Eg.
+        - apply andb_true_iff in Eg as [_ Eg]. b2p. apply skip_fwd_spec in Hw'. lia.
+        - inversion Hw'; subst. lia. }
+      destruct Hw2 as (W1 & W2 & W3).
+      destruct (len <=? w') eqn:Elw; [apply delim_finish_nf|]. b2p.
+      destruct Hs as (K2 & K3 & (K5 & K6) & (K8 & K9)).
+      assert (Hokl : forall ms, (forall c, In c ms -> In c (tms ++ an_elems d)) \/ idx < w -> idx < w \/ sk = false ->
+                Okl ms (len - w')).
+      { intros ms Hsub Hsk. destruct Hj as [Hj|[Hj1 Hj2]]; [apply okl_lt; lia|].
+        destruct Hsub as [Hsub|Hsub]; [|apply okl_lt; lia].
+        eapply okl_mono; [|eapply okl_sub; [exact Hsub|exact Hj2]]. lia. }
+      apply nf_bind.
+      { apply longest_match_nf; auto; [lia|].
+        destruct Hj as [Hj|[Hj1 Hj2]]; [apply okl_lt; lia|].
+        eapply okl_mono; [|eapply okl_sub; [|exact Hj2]]; [lia|]. intros c Hc. apply in_or_app. left. exact Hc. }
+      intros [tm tmo] _. destruct (has_match tm); [apply delim_finish_nf|].
+      apply nf_bind.
+      { destruct sk.
+        - apply longest_match_nf; auto; [lia|]. destruct Hj as [Hj|[Hj1 _]]; [apply okl_lt; lia|discriminate].
+        - apply longest_match_nf; auto; [lia|].
+          destruct Hj as [Hj|[Hj1 Hj2]]; [apply okl_lt; lia|].
+          eapply okl_mono; [|eapply okl_sub; [|exact Hj2]]; [lia|]. intros c Hc. apply in_or_app. right. exact Hc. }
+      intros [m mo] Hlm.
+      destruct (negb (has_match m)) eqn:Ehm; [apply delim_finish_nf|]. apply negb_false_iff in Ehm.
+      pose proof (longest_match_adv g toks rec HrecB _ _ _ _ _ _ Hlm Ehm) as Hadv.
+      apply (longest_match_spec g toks rec HrecB) in Hlm. destruct Hlm as [->|[Hlt (M1 & M2 & M3)]];
+        [unfold has_match in Ehm; cbn in Ehm; rewrite N.eqb_refl in Ehm; discriminate|].
+      assert (Hs' : DelimS d delim tms terms) by (repeat split; assumption).
+      destruct sk.
+      - apply IH; auto; try lia.
+      - destruct dm as [x|]; apply IH; auto; try lia.
+    Qed.
+
+    Lemma match_delimited_nf d delim tr mn len idx terms :
+      idx <= len -> len - idx <= R0 ->
+      let tms := an_terms d ++ filter (fun t => negb (meq g delim t)) terms
+                 ++ (if an_gaps d then [] else [g_noncode g]) in
+      DelimS d delim tms terms -> Okl (tms ++ an_elems d) (len - idx) ->
+      NF (match_delimited g toks rec fl d delim tr mn len idx terms).
+    Proof.
+      intros Hi Hr tms Hs Ho. unfold match_delimited. apply delim_loop_nf; auto; try lia.
+    Qed.
   End WithRec.
 End Term.
